@@ -173,3 +173,28 @@ package itertools
 //@     invariant forall t in j+2..k: iter.a[t] == pre(iter.a)[n + j - t]
 //@     invariant forall t in l+1..n-1: iter.a[t] == pre(iter.a)[n + j - t]
 //@     decreases l - k + 1
+
+// MultisetPermutations: the first permutation is the non-decreasing arrangement with freq[i] copies of i
+//@ lemma psumMono(s []int, a int, b int)
+//@   requires 0 <= a && a <= b && b <= len(s) && (forall k in 0..len(s): 0 <= s[k])
+//@   ensures psum(s, a) <= psum(s, b) && 0 <= psum(s, a)
+//@   by induction b
+//@   pattern psum(s, a), psum(s, b)
+//@ func MultisetPermutations
+//@   requires len(freq) <= 16777216
+//@   requires forall k in 0..len(freq): 0 <= freq[k] && freq[k] <= 16777216
+//@   ensures fresh(result) && fresh(result.lexIter) && fresh(result.lexIter.a) && result.lexIter.first
+//@   ensures result.lexIter.n == psum(freq, len(freq)) && len(result.lexIter.a) == result.lexIter.n
+//@   ensures forall i in 0..len(freq): forall t in psum(freq, i)..psum(freq, i+1): result.lexIter.a[t] == i
+//@   opt lemmas=psumMono
+//@   loop 1
+//@     invariant -1 <= rangeindex && (rangeindex < len(freq) || (len(freq) == 0 && rangeindex == -1)) && n == psum(freq, len(freq)) && fresh(a)
+//@     invariant len(a) == psum(freq, rangeindex + 1)
+//@     invariant forall i in 0..rangeindex+1: forall t in psum(freq, i)..psum(freq, i+1): a[t] == i
+//@     decreases len(freq) - rangeindex
+//@   loop 2
+//@     invariant 0 <= j && j <= freq[i] && 0 <= i && i < len(freq) && rangeindex == i && n == psum(freq, len(freq)) && fresh(a)
+//@     invariant len(a) == psum(freq, i) + j
+//@     invariant forall ii in 0..i: forall t in psum(freq, ii)..psum(freq, ii+1): a[t] == ii
+//@     invariant forall t in psum(freq, i)..psum(freq, i)+j: a[t] == i
+//@     decreases freq[i] - j
